@@ -108,7 +108,12 @@ impl Assembler {
         let mut buffers = old.into_sorted_vec();
         self.buffered = 0;
         let mut fragmented_buffered = 0;
-        let mut offset = 0;
+        // In ordered mode everything below `bytes_read` has already been handed to the
+        // application; discard it so that a later switch to unordered reads cannot return it again.
+        let mut offset = match self.state.is_ordered() {
+            true => self.bytes_read,
+            false => 0,
+        };
         for chunk in buffers.iter_mut().rev() {
             chunk.try_mark_defragment(offset);
             let size = chunk.bytes.len();
